@@ -196,7 +196,20 @@ func adjacentAvoiding(p *tak.Position, x, y, ax, ay int) (int, int) {
 	panic("no empty adjacency")
 }
 
-func (d *DoubleStack) GetMove(p *tak.Position) (tak.Move, bool) {
+// declineOnPanic makes a scripted GetMove decline (ok == false, so
+// that the caller searches for a move as in any other position)
+// instead of taking the process down. The scripts work from the
+// squares LegalMove noted while it was shown the record; in a resumed
+// game the record need not have followed the opening, and then dir and
+// adjacent may be asked for a square that does not exist.
+func declineOnPanic(m *tak.Move, ok *bool) {
+	if recover() != nil {
+		*m, *ok = tak.Move{}, false
+	}
+}
+
+func (d *DoubleStack) GetMove(p *tak.Position) (m tak.Move, ok bool) {
+	defer declineOnPanic(&m, &ok)
 	switch p.MoveNumber() {
 	case 0, 1:
 		return tak.Move{}, false
@@ -382,7 +395,8 @@ func (c *Cairn) LegalMove(p *tak.Position, m tak.Move) error {
 	return errors.New(cairnErrors[p.MoveNumber()])
 }
 
-func (c *Cairn) GetMove(p *tak.Position) (tak.Move, bool) {
+func (c *Cairn) GetMove(p *tak.Position) (m tak.Move, ok bool) {
+	defer declineOnPanic(&m, &ok)
 	switch p.MoveNumber() {
 	case 0, 1:
 		return tak.Move{}, false
